@@ -138,7 +138,7 @@ def run(chk):
         if cache_res[0] != 0:
             if not corrupted_hit:
                 chk.violation("caching a loadable repository failed: %s" % cache_res, full,
-                              known_class="url_encoded_target_name" if any(needs_url_encoding(n) for n in requested) else None)
+                              known_class="url_encoded_target_name" if any(needs_url_encoding(resolved(n), (hashlib.sha256(info["contents"][n].encode()).hexdigest() + ".") if info["cs"] else "") for n in requested) else None)
             # whatever happened, no unverified target may have been stored
         for f, b in contents.items():
             if f.startswith("<OUTSIDE>/targets/"):
@@ -167,7 +167,11 @@ def run(chk):
             r = dls.get(n)
             if r is None or r[0] != 0 or C.b2s(r[1]) != hashlib.sha256(c.encode()).hexdigest():
                 chk.violation("cached target %r does not read back byte-identical from the copy: %s" % (n, r), full,
-                              known_class="url_encoded_target_name" if needs_url_encoding(n) else None)
+                              known_class="url_encoded_target_name" if needs_url_encoding(resolved(n), (hashlib.sha256(c.encode()).hexdigest() + ".") if info["cs"] else "") else None)
+    # where cached target files are looked for (C19_cached_target_served): Model/Url.v against the url crate, a real
+    # directory and the real FilesystemTransport
+    from lib import urlcheck
+    urlcheck.run(chk, quick_n=600)
     return chk
 
 
